@@ -358,7 +358,7 @@ def _eval_formula(f, symenv, F):
     return k == "true"
 
 
-def numeric_counterexample(formulas, concl, model, tries=600, seed=0):
+def numeric_counterexample(formulas, concl, model, tries=1200, seed=0):
     """a concrete point (true exp/log/sqrt) where every formula holds and concl fails; the solver's
     model is tried first, then points around it, then random points"""
     import random
@@ -378,16 +378,24 @@ def numeric_counterexample(formulas, concl, model, tries=600, seed=0):
             symenv[C.byname["pi"]] = F.pi
         try:
             if all(_eval_formula(f, symenv, F) for f in formulas) and not _eval_formula(concl, symenv, F):
-                return True
+                if concl[0] == "atom":
+                    try:
+                        return float(abs(alg.evalv(concl[1], symenv, F)))
+                    except Exception:
+                        return 0.0
+                return 0.0
         except (ZeroDivisionError, ValueError, KeyError, TypeError):
-            return False
-        return False
+            return None
+        return None
 
+    best = (None, -1.0)
     cand = dict(base)
     for n in names:
         cand.setdefault(n, Fraction(1))
-    if attempt(cand):
-        return {k: str(v) for k, v in cand.items()}
+    m = attempt(cand)
+    if m is not None:
+        best = ({k: str(v) for k, v in cand.items()}, m)
+    found = 0
     for i in range(tries):
         env = {}
         for n in names:
@@ -395,12 +403,21 @@ def numeric_counterexample(formulas, concl, model, tries=600, seed=0):
             if i % 2 == 0 and n in base:
                 v = base[n] * Fraction(rng.randint(50, 200), 100) + Fraction(rng.randint(-20, 20), 100)
             else:
-                v = Fraction(rng.randint(-300, 300), 100)
+                v = Fraction(rng.randint(-300, 300), 100) * (1, 1, 3, 8)[i % 4]
             if kind == "pos":
                 v = abs(v) + Fraction(1, 100)
                 if n in ("eps", "tol") or n.startswith("eps"):
                     v = Fraction(rng.randint(1, 99), 100)
             env[n] = v
-        if attempt(env):
-            return {k: str(v) for k, v in env.items()}
-    return None
+        m = attempt(env)
+        if m is not None:
+            found += 1
+            if m > best[1]:
+                best = ({k: str(v) for k, v in env.items()}, m)
+            if found >= 10 or (concl[0] != "atom"):
+                break
+    LAST_DIFF[0] = best[1]
+    return best[0]
+
+
+LAST_DIFF = [0.0]
